@@ -47,7 +47,8 @@ TRUSTED_BASE = [
 def H(name, file, entry, enforce=None, rec=False, replace=(), src=(), defs=(), loops=False, unwindset=(),
       unwind=None, flags=(), kind="proof", bound="", tiers=("quick", "thorough"), timeout=600, mem_gb=8,
       canaries=1, solver=None, geometry=None, funcs=(), stubs=(), objbits=12, native=True, desc="",
-      safety=True, expect_loops=0, nondet_static=False, extra_instr=(), float_checks=False, no_ptr_prim=False):
+      safety=True, expect_loops=0, nondet_static=False, extra_instr=(), float_checks=False, no_ptr_prim=False,
+      fallback_unwind=None):
     return dict(locals())
 
 
@@ -196,6 +197,17 @@ def build_and_run(h, work, tier, keep=False):
             cmd += ["--unwindset", f"{fn}_wrapped_for_contract_checking.{rest}"]
     if h["unwind"] is not None:
         cmd += ["--unwind", str(h["unwind"])]
+    elif h["unwindset"]:
+        # safety net for loops that are not in the unwindset (e.g. a loop introduced by a change to /repo): bounded with
+        # an unwinding assertion instead of being unwound forever; loops listed in the unwindset keep their own bounds.
+        # Default: the largest listed bound + 2.
+        fb = h.get("fallback_unwind")
+        if not fb:
+            try:
+                fb = max(int(u.rsplit(":", 1)[1]) for u in h["unwindset"]) + 2
+            except Exception:
+                fb = 64
+        cmd += ["--unwind", str(fb)]
     if h["unwindset"] or h["unwind"] is not None:
         cmd += ["--unwinding-assertions"]
     if h["solver"] == "kissat":
